@@ -844,6 +844,15 @@ add("C04", "benign: escaped text bound to a local before it is quoted", "sqlglot
     "            return f\"EXEC sp_rename '{old_name}', '{self.escape_str(action.this.name)}'\"",
     "            new_name = self.escape_str(action.this.name)\n            return f\"EXEC sp_rename '{old_name}', '{new_name}'\"", "silent", 0)
 
+add("C04", "qualify elimination rebuilds the projection without its quoted flag", "sqlglot/transforms.py",
+    'exp.column(alias_or_name, quoted=identifier.args.get("quoted"))', 'exp.column(alias_or_name)', "C04.R10")
+add("C04", "safe bare words may contain a dollar sign", "sqlglot/expressions/core.py",
+    'SAFE_IDENTIFIER_RE: t.Pattern[str] = re.compile(r"^[_a-zA-Z][\\w]*\\Z")', 'SAFE_IDENTIFIER_RE: t.Pattern[str] = re.compile(r"^[_a-zA-Z][\\w$]*\\Z")', "C04.R11")
+add("C04", "revert: safe bare words anchored with $ (trailing line break)", "sqlglot/expressions/core.py",
+    'SAFE_IDENTIFIER_RE: t.Pattern[str] = re.compile(r"^[_a-zA-Z][\\w]*\\Z")', 'SAFE_IDENTIFIER_RE: t.Pattern[str] = re.compile(r"^[_a-zA-Z][\\w]*$")', "C04.R11")
+add("C04", "benign: safe bare words written with an explicit character class", "sqlglot/expressions/core.py",
+    'SAFE_IDENTIFIER_RE: t.Pattern[str] = re.compile(r"^[_a-zA-Z][\\w]*\\Z")', 'SAFE_IDENTIFIER_RE: t.Pattern[str] = re.compile(r"^[_a-zA-Z][_a-zA-Z0-9]*\\Z")', "silent")
+
 add("C08", "revert: replace() clears the links of a node contained in its own replacement list", CORE,
     "        if expression is not self and not (\n            type(expression) is list and any(e is self for e in expression)\n        ):\n",
     "        if expression is not self:\n", "C08.b")
